@@ -25,7 +25,7 @@ def utils_m2(rng, n):
     bad = []
     for cid in range(n):
         ns = int(rng.integers(1, 3)); nu = int(rng.integers(0, 3))
-        order, mode = sg.gen_layout(rng, 1, max_eps=5, extra=4)
+        order, mode = sg.gen_layout(rng, 1, max_eps=5, extra=4, many=True if cid in (1, 2, 3) else None)
         X = sg.gen_data(rng, order, ns, nu, True, tagged=True)
         w = int(rng.integers(1, 4))
         p = f'u{cid}'
